@@ -17,6 +17,8 @@ from ..schema import (
     InputObjectType,
     InputValue,
     InterfaceType,
+    ListType,
+    NonNullType,
     ObjectType,
     ScalarType,
     Schema,
@@ -405,7 +407,14 @@ class TypeInfoVisitor(DispatchingVisitor):
 
     def enter_list_value(self, node):
 
-        item_type = unwrap_type(self.input_type) if self.input_type else None
+        # Only unwrap one level of list so that nested lists and the
+        # nullability of items are tracked correctly.
+        list_type = self.input_type
+        if isinstance(list_type, NonNullType):
+            list_type = list_type.type
+        item_type = (
+            list_type.type if isinstance(list_type, ListType) else list_type
+        )
 
         self._input_type_stack.append(
             item_type if item_type and is_input_type(item_type) else None
